@@ -17,8 +17,7 @@
      [kind_result loc k]  the outcome the text prescribes for a false assertion of kind
                      [k]: DepSkip/Skip/Retry/PermFail with message and delay, [None]
                      (= continue) for the ok kind;
-     [evaluate_predicates es loc]  what the code does: [Done None] = continue, [Done (Some o)]
-                     = outcome o is returned ([Raised] would be an escaping exception). *)
+     [evaluate_predicates es loc]  what the code returns, [None] = continue. *)
 From Koreo Require Import Json Outcome ErrScan Predicates ErrScan_proofs Predicates_proofs.
 Local Open Scope list_scope.
 
@@ -32,10 +31,10 @@ Theorem C13_first_false_decides : forall loc es specs,
   specs_of es specs ->
   (forall e, In e es -> assert_of e = Some false -> err_free e) ->
   evaluate_predicates es loc =
-    Done match find (fun s => negb (fst s)) specs with
-         | None => None
-         | Some s => kind_result loc (snd s)
-         end.
+    match find (fun s => negb (fst s)) specs with
+    | None => None
+    | Some s => kind_result loc (snd s)
+    end.
 Proof. exact first_false_decides. Qed.
 
 (* the same, positionally: everything before position |pre| is true, that one is false *)
@@ -43,13 +42,13 @@ Theorem C13_first_false_at : forall loc es specs pre k post,
   specs_of es specs ->
   (forall e, In e es -> assert_of e = Some false -> err_free e) ->
   specs = pre ++ (false, k) :: post -> Forall (fun s => fst s = true) pre ->
-  evaluate_predicates es loc = Done (kind_result loc k).
+  evaluate_predicates es loc = kind_result loc k.
 Proof. exact first_false_at. Qed.
 
 (* "... and if none is false evaluation continues" *)
 Theorem C13_none_false_continues : forall loc es specs,
   specs_of es specs -> Forall (fun s => fst s = true) specs ->
-  evaluate_predicates es loc = Done None.
+  evaluate_predicates es loc = None.
 Proof. exact none_false_continues. Qed.
 
 (* "with its message and delay": a string message is returned verbatim, an integer delay
@@ -63,7 +62,7 @@ Theorem C13_message_and_delay : forall loc s z,
 Proof. intros; cbn; repeat split. Qed.
 
 Theorem C13_retry_bad_delay : forall loc m d,
-  delay_of d = None -> is_permfail (Done (kind_result loc (KRetry m d))).
+  delay_of d = None -> is_permfail (kind_result loc (KRetry m d)).
 Proof. exact retry_bad_delay_permfail. Qed.
 
 (* "If an assertion ... cannot be evaluated or is not a boolean, the outcome is PermFail":
@@ -84,7 +83,7 @@ Proof. exact deciding_msg_err_permfail. Qed.
 (* "Whenever the outcome is not to continue, the body is not evaluated": ValueFunction —
    the precondition outcome is the result and neither locals nor return reached celpy *)
 Theorem C13_vf_body_not_evaluated : forall f base loc o,
-  evaluate_predicates_opt (vf_pre f) (sloc loc "preconditions") = Done (Some o) ->
+  evaluate_predicates_opt (vf_pre f) (sloc loc "preconditions") = Some o ->
   fst (reconcile_vf f base loc) = Done (UOut o) /\
   ~ In SLocals (snd (reconcile_vf f base loc)) /\ ~ In SReturn (snd (reconcile_vf f base loc)).
 Proof. exact vf_precondition_body_not_evaluated. Qed.
@@ -93,26 +92,27 @@ Proof. exact vf_precondition_body_not_evaluated. Qed.
    behaviour of reconcile_krm_resource, a precondition outcome means an empty API call log
    (reads included) and nothing but the preconditions evaluated *)
 Theorem C13_rf_cluster_not_touched : forall (call : Type) krm f loc o,
-  evaluate_predicates_opt (rf_pre f) (sloc loc "preconditions") = Done (Some o) ->
-  reconcile_rf call krm f loc = (Done (Some (UOut o)), trace_of SPre (rf_pre f), []).
+  evaluate_predicates_opt (rf_pre f) (sloc loc "preconditions") = Some o ->
+  reconcile_rf call krm f loc = (Some (UOut o), trace_of SPre (rf_pre f), []).
 Proof. exact rf_precondition_stops. Qed.
 
 (* postconditions: the outcome is returned and `return` is not evaluated *)
 Theorem C13_rf_post_body_not_evaluated : forall (call : Type) krm f loc o,
-  evaluate_predicates_opt (rf_post f) (sloc loc "postconditions") = Done (Some o) ->
+  evaluate_predicates_opt (rf_post f) (sloc loc "postconditions") = Some o ->
   forall r t calls, reconcile_rf call krm f loc = (r, t, calls) ->
-  ~ In SReturn t /\ (In SPost t -> r = Done (Some (UOut o))).
+  ~ In SReturn t /\ (In SPost t -> r = Some (UOut o)).
 Proof. exact rf_postcondition_stops. Qed.
 
-(* GENUINE DEFECT (see notes/C13.md, known_findings.d/C13.json): "the outcome is PermFail"
-   fails when celpy RAISES a CELEvalError whose tree celpy's own tree_dump cannot print
-   (e.g. a macro body `x == []` inside a message, or a ValueError/TypeError inside a
-   predicate of kind `ok: {}`): evaluate_predicates' except handler then raises IndexError.
-   The theorems above are about evaluated elements (error VALUES), where this cannot happen:
-   [cel_filter] only ever yields [RRaise true]. *)
-Theorem C13_unevaluable_raises_refuted : exists r loc,
-  ErrScan_proofs.failed r /\ evaluate_predicates_raw r loc = Raised IndexError.
-Proof. exists (RRaise false), "L"%string. split; [exact I|reflexivity]. Qed.
+(* "If an assertion or a message cannot be evaluated ... the outcome is PermFail", at the level of
+   what celpy hands to evaluate_predicates: WHATEVER celpy does — raises a CELEvalError (also one
+   whose tree celpy's tree_dump cannot print: the except handler no longer raises since /repo
+   4ee1f6b), raises anything else, or returns a value with an error object anywhere — the result
+   is a PermFail naming the location.  evaluate_predicates is a total function into
+   [option outcome]: no exception escapes. *)
+Theorem C13_unevaluable_is_permfail : forall r loc,
+  ErrScan_proofs.failed r ->
+  exists o, evaluate_predicates_raw r loc = Some o /\ ErrScan_proofs.names_loc loc o.
+Proof. exact ErrScan_proofs.evaluate_predicates_failed. Qed.
 
 (* non-vacuity: a 4-element list (a passing skip whose message FAILS, a false retry, a false
    permFail, a passing ok) meets the hypotheses of C13_first_false_decides and the result is
@@ -120,19 +120,19 @@ Proof. exists (RRaise false), "L"%string. split; [exact I|reflexivity]. Qed.
    return; a false ok-kind assertion stops the checking; a non-boolean assertion after a
    false one still gives PermFail *)
 Example C13_nonvacuous :
-  let es := [elem (VBool true) (KSkip (VErr true));
+  let es := [elem (VBool true) (KSkip VErr);
              elem (VBool false) (KRetry (VStr "wait") (VInt 7));
              elem (VBool false) (KPermFail (VStr "boom"));
              elem (VBool true) KOk] in
-  let specs := [(true, KSkip (VErr true)); (false, KRetry (VStr "wait") (VInt 7));
+  let specs := [(true, KSkip VErr); (false, KRetry (VStr "wait") (VInt 7));
                 (false, KPermFail (VStr "boom")); (true, KOk)] in
   specs_of es specs /\
   (forall e, In e es -> assert_of e = Some false -> err_free e) /\
-  evaluate_predicates es "L" = Done (Some (Retry 7 (Some "wait") (Some "L"))) /\
-  reconcile_vf {| vf_pre := Some (cel_filter es); vf_locals := Some (RRaise true);
-                  vf_return := Some (ISub [("x", IAt 0)], RRaise true) |} None "f"
+  evaluate_predicates es "L" = Some (Retry 7 (Some "wait") (Some "L")) /\
+  reconcile_vf {| vf_pre := Some (cel_filter es); vf_locals := Some RRaise;
+                  vf_return := Some (ISub [("x", IAt 0)], RRaise) |} None "f"
     = (Done (UOut (Retry 7 (Some "wait") (Some "f:spec.preconditions"))), [SPre]) /\
-  evaluate_predicates [elem (VBool false) KOk; elem (VBool false) (KSkip (VStr "s"))] "L" = Done None /\
+  evaluate_predicates [elem (VBool false) KOk; elem (VBool false) (KSkip (VStr "s"))] "L" = None /\
   is_permfail (evaluate_predicates [elem (VBool false) (KSkip (VStr "s")); elem (VInt 5) KOk] "L").
 Proof.
   cbn zeta. split; [|split; [|split; [|split; [|split]]]].
@@ -155,4 +155,4 @@ Print Assumptions C13_deciding_msg_err_permfail.
 Print Assumptions C13_vf_body_not_evaluated.
 Print Assumptions C13_rf_cluster_not_touched.
 Print Assumptions C13_rf_post_body_not_evaluated.
-Print Assumptions C13_unevaluable_raises_refuted.
+Print Assumptions C13_unevaluable_is_permfail.
